@@ -265,7 +265,7 @@ class BaseCfgLine(object):
         """
         linenum = getattr(self, 'linenum', None)
         _text = getattr(self, 'text', DEFAULT_TEXT)
-        return hash(linenum) * hash(_text)
+        return hash((linenum, _text))
 
     # On BaseCfgLine()
     @property
